@@ -764,6 +764,16 @@ func (h *history) query() {
 		if !h.rangeOK(a, b) {
 			return
 		}
+		if r.Intn(5) == 0 {
+			// a complete Range pass (which usually ends at the first key beyond the end bound), then the same bounds
+			// ranged over from inside the loop body of a pass over that same sequence value
+			h.s.exec("seq", h.id, "range", a, b, "0", "1")
+			h.s.exec("nestseq", h.id, "range", a, b)
+			h.s.tr.stats["nested-self-passes"]++
+			h.s.tr.stats["nested-range-passes"]++
+			h.feat["range"] = true
+			return
+		}
 		st, ps := h.stopPasses()
 		h.s.exec("seq", h.id, "range", a, b, st, ps)
 		h.feat["range"] = true
